@@ -3530,22 +3530,46 @@ impl LuaCommandAdapter {
             .map(|s| RespFrame::bulk_string(s))
             .collect();
         
-        // SPOP, SRANDMEMBER and SETRANGE have free-standing handlers: run the very code of the directly issued
-        // command (counts / offsets parsed as i64 then converted, `SPOP s 1` an array, a missing key without count nil)
-        if let Some(RespFrame::BulkString(Some(name))) = frames.first() {
-            match String::from_utf8_lossy(name).to_uppercase().as_str() {
-                "SPOP" => return crate::storage::commands::sets::handle_spop(&self.executor.storage, db_index, &frames),
-                "SRANDMEMBER" => return crate::storage::commands::sets::handle_srandmember(&self.executor.storage, db_index, &frames),
-                "SETRANGE" => return crate::storage::commands::strings::handle_setrange(&self.executor.storage, db_index, &frames),
-                _ => {}
+        // Commands whose handler is a free-standing function - the one the server dispatches the client's frame to - get the
+        // script's frame UNCHANGED: the very code of the directly issued command runs (same validation, same reply shapes).
+        // The stream, consumer-group and scan commands used to be parsed and re-assembled here, which lost options
+        // (XCLAIM JUSTID, XREADGROUP NOACK, HSCAN NOVALUES, XTRIM MAXLEN ~) and mis-ordered XREADGROUP's streams.
+        use crate::storage::commands::{sets, strings, streams, consumer_groups, scan};
+        let storage = &self.executor.storage;
+        let name = match frames.first() {
+            Some(RespFrame::BulkString(Some(name))) => String::from_utf8_lossy(name).to_uppercase(),
+            _ => String::new(),
+        };
+        let result = match name.as_str() {
+            "SPOP" => sets::handle_spop(storage, db_index, &frames),
+            "SRANDMEMBER" => sets::handle_srandmember(storage, db_index, &frames),
+            "SETRANGE" => strings::handle_setrange(storage, db_index, &frames),
+            "XADD" => streams::handle_xadd(storage, db_index, &frames),
+            "XLEN" => streams::handle_xlen(storage, db_index, &frames),
+            "XRANGE" => streams::handle_xrange(storage, db_index, &frames),
+            "XREVRANGE" => streams::handle_xrevrange(storage, db_index, &frames),
+            "XREAD" => streams::handle_xread(storage, db_index, &frames),
+            "XTRIM" => streams::handle_xtrim(storage, db_index, &frames),
+            "XDEL" => streams::handle_xdel(storage, db_index, &frames),
+            "XGROUP" => consumer_groups::handle_xgroup(storage, db_index, &frames),
+            "XREADGROUP" => consumer_groups::handle_xreadgroup(storage, db_index, &frames),
+            "XACK" => consumer_groups::handle_xack(storage, db_index, &frames),
+            "XPENDING" => consumer_groups::handle_xpending(storage, db_index, &frames),
+            "XCLAIM" => consumer_groups::handle_xclaim(storage, db_index, &frames),
+            "XINFO" => consumer_groups::handle_xinfo(storage, db_index, &frames),
+            "SCAN" => scan::handle_scan(storage, db_index, &frames),
+            "HSCAN" => scan::handle_hscan(storage, db_index, &frames),
+            "SSCAN" => scan::handle_sscan(storage, db_index, &frames),
+            "ZSCAN" => scan::handle_zscan(storage, db_index, &frames),
+            _ => {
+                let mut parsed = CommandParser::parse(&frames)?;
+                parsed.db_override = Some(db_index);
+                // Execute with guaranteed atomicity for multi-step scripts
+                self.executor.execute(parsed)
             }
-        }
+        };
         
-        let mut parsed = CommandParser::parse(&frames)?;
-        parsed.db_override = Some(db_index);
-        
-        // Execute with guaranteed atomicity for multi-step scripts
-        match self.executor.execute(parsed) {
+        match result {
             // the error reply of the directly issued command, with its error class
             Err(FerrousError::Storage(crate::error::StorageError::WrongType)) | Err(FerrousError::Command(CommandError::WrongType)) => {
                 Ok(RespFrame::error("WRONGTYPE Operation against a key holding the wrong kind of value"))
